@@ -1,3 +1,6 @@
 ----------------------------- MODULE MCMerger -----------------------------
 EXTENDS Merger
+\* non-vacuity of Progress: a merger with a step that works on the heap without advancing any source
+Peek == phase = "run" /\ heap # {} /\ calls # <<>> /\ calls' = <<>> /\ UNCHANGED <<srcs, head, heap, out, phase>>
+MBadLive == MInit /\ [][MNext \/ Peek]_mvars /\ WF_mvars(Seed \/ NextOut \/ Finish)
 =============================================================================
